@@ -1234,7 +1234,7 @@ int32 matrixRegisterSession(ssl_t *ssl)
     pList = DLListGetHead(&g_sessionChronList);
     sess = DLListGetContainer(pList, sslSessionEntry_t, chronList);
     id = sess->id;
-    i = (id[3] << 24) + (id[2] << 16) + (id[1] << 8) + id[0];
+    i = ((uint32) id[3] << 24) + ((uint32) id[2] << 16) + ((uint32) id[1] << 8) + id[0];
     if (i >= SSL_SESSION_TABLE_SIZE)
     {
         psUnlockMutex(&g_sessionTableLock);
@@ -1295,7 +1295,7 @@ int32 matrixClearSession(ssl_t *ssl, int32 remove)
     }
     id = ssl->sessionId;
 
-    i = (id[3] << 24) + (id[2] << 16) + (id[1] << 8) + id[0];
+    i = ((uint32) id[3] << 24) + ((uint32) id[2] << 16) + ((uint32) id[1] << 8) + id[0];
     if (i >= SSL_SESSION_TABLE_SIZE)
     {
         return PS_LIMIT_FAIL;
@@ -1357,7 +1357,7 @@ int32 matrixResumeSession(ssl_t *ssl)
     }
     id = ssl->sessionId;
 
-    i = (id[3] << 24) + (id[2] << 16) + (id[1] << 8) + id[0];
+    i = ((uint32) id[3] << 24) + ((uint32) id[2] << 16) + ((uint32) id[1] << 8) + id[0];
     psLockMutex(&g_sessionTableLock);
     if (i >= SSL_SESSION_TABLE_SIZE || g_sessionTable[i].cipher == NULL)
     {
@@ -1430,7 +1430,7 @@ int32 matrixUpdateSession(ssl_t *ssl)
         return PS_LIMIT_FAIL;
     }
     id = ssl->sessionId;
-    i = (id[3] << 24) + (id[2] << 16) + (id[1] << 8) + id[0];
+    i = ((uint32) id[3] << 24) + ((uint32) id[2] << 16) + ((uint32) id[1] << 8) + id[0];
     if (i >= SSL_SESSION_TABLE_SIZE)
     {
         return PS_LIMIT_FAIL;
@@ -1921,7 +1921,7 @@ int32 matrixUnlockSessionTicket(ssl_t *ssl, unsigned char *in, int32 inLen)
     enc += SSL_HS_MASTER_SIZE;
 
     /* Check lifetime */
-    time = *enc << 24; enc++;
+    time = (uint32) *enc << 24; enc++;
     time += *enc << 16; enc++;
     time += *enc << 8; enc++;
     time += *enc; enc++;
